@@ -463,8 +463,10 @@ impl MarshalledMessageBody {
         match push_calls(self) {
             Ok(ret) => Ok(ret),
             Err(e) => {
-                // reset state to before any of the push calls happened
-                self.sig.truncate(sig_len)?;
+                // reset state to before any of the push calls happened. The signature only needs to be cut back to
+                // what it was before. Validating it here would keep the partial output if that signature is not (yet)
+                // valid, for example because it is longer than 255 characters.
+                self.sig.to_string_mut().truncate(sig_len);
                 self.buf.truncate(buf_len);
                 self.raw_fds.truncate(fds_len);
                 Err(e)
